@@ -467,8 +467,14 @@ func (s *crSess) judgeDir(d, names string, acked, issued int, exact bool, prop s
 	}
 	next := badger.VerifNextTxnTs(db)
 	stored := crDumpDB(db)
+	// a timestamp can be handed out twice in one session: when a compaction has dropped every
+	// entry of the newest commits, a reopen restarts nextTxnTs below them. A stored version
+	// belongs to the newest commit with that timestamp issued before the crash point.
 	verTo := map[uint64]int{}
 	for i, c := range s.commits {
+		if old, ok := verTo[c.ts]; ok && i >= issued && old < issued {
+			continue
+		}
 		verTo[c.ts] = i
 	}
 	m := 0
@@ -900,6 +906,7 @@ func (s *crSess) crashes(kv map[string]string, emit func(string, string), fail f
 		return true
 	}
 	pos := s.positions()
+	synth := s.synthImages()
 	for i, e := range s.events {
 		if e.tok == "" {
 			continue
@@ -913,7 +920,7 @@ func (s *crSess) crashes(kv map[string]string, emit func(string, string), fail f
 		if kvInt(kv, "sub", 1) != 0 && (e.Kind == badger.VevCreate || e.Kind == badger.VevDelete) && (strings.HasSuffix(e.file, ".mem") || strings.HasSuffix(e.file, ".vlog") || strings.HasSuffix(e.file, ".sst")) {
 			var prev crImage
 			if i > 0 {
-				prev = s.snaps[i-1].clone()
+				prev = synth[i-1].clone()
 			} else {
 				prev = s.initial.clone()
 			}
@@ -927,7 +934,7 @@ func (s *crSess) crashes(kv map[string]string, emit func(string, string), fail f
 			s.st.Inc("crash:sub-" + sub)
 			for _, f := range v.fails {
 				if strings.Contains(f, "-open]") && v.out == "err:zero-length-log" {
-					f = "[F17:zero-length-log-file] " + f
+					f = "[F22:zero-length-log-file] " + f
 				}
 				fail(f)
 			}
@@ -935,32 +942,22 @@ func (s *crSess) crashes(kv map[string]string, emit func(string, string), fail f
 		if stride > 1 && i%stride != 0 && i != len(s.events)-1 {
 			continue
 		}
-		img := s.snaps[i]
-		if j := pos[i].racing; j >= 0 {
-			// the other thread was inside z.OpenMmapFile / MmapFile.Delete when the snapshot was
-			// taken: a real instance of the sub-event image of its next event
-			o := s.events[j]
-			sub := "create"
-			if o.Kind == badger.VevDelete {
-				sub = "delete"
-			}
-			w2, f2 := wc, fc
-			if pos[j].actor == 'F' {
-				f2++
-			} else {
-				w2++
-			}
-			v := s.judgeImage(img, acked, issued, s.exactAt(g), "C08")
-			emit(fmt.Sprintf("crash step=%d w=%d f=%d sub=%s:%s actor=%c", e.step, w2, f2, sub, strings.SplitN(o.tok, ":", 2)[1], pos[j].actor), v.out)
-			s.st.Inc("crash:racing-sub-" + sub)
+		// The image compared with the model is assembled from race-free pieces: every file as it
+		// was right after the last event that touched it (taken from the snapshot the touching
+		// thread made itself). The raw snapshot may additionally hold an operation of the other
+		// thread that had landed but was not logged yet (or was half done): it is a legal kill
+		// state too and is judged by the oracle alone.
+		img := synth[i]
+		if raw := s.snaps[i]; !sameImg(raw, img) {
+			v := s.judgeImage(raw, acked, issued, s.exactAt(g), "C08")
+			emit(fmt.Sprintf("crash step=%d w=%d f=%d racy=1", e.step, wc, fc), "judged")
+			s.st.Inc("crash:racy-snapshot")
 			for _, f := range v.fails {
 				if strings.Contains(f, "-open]") && v.out == "err:zero-length-log" {
-					f = "[F17:zero-length-log-file] " + f
+					f = "[F22:zero-length-log-file] " + f
 				}
 				fail(f)
 			}
-			last = nil
-			continue
 		}
 		if sameImg(img, last) {
 			// e.g. a sync: nothing changed for the kill model
@@ -977,7 +974,6 @@ func (s *crSess) crashes(kv map[string]string, emit func(string, string), fail f
 		}
 	}
 }
-
 
 // ---------------------------------------------------------------- generator
 
@@ -1109,7 +1105,6 @@ func genCrashSession(rng *rand.Rand, st *Stats) []string {
 	}
 	return ops
 }
-
 
 // ---------------------------------------------------------------- C07: close / reopen
 
@@ -1254,8 +1249,8 @@ func (s *crSess) c07(emit func(string, string), fail func(string)) {
 
 // identity of a file = the event that created it (0 = there before recording started)
 type crPower struct {
-	vol  map[string]int    // name -> identity (volatile directory)
-	dur  map[string]int    // name -> identity (as of the last syncdir)
+	vol  map[string]int // name -> identity (volatile directory)
+	dur  map[string]int // name -> identity (as of the last syncdir)
 	sync map[int]crFile // identity -> content as of its last sync (a never-synced file: zeros of its created size)
 }
 
@@ -1266,12 +1261,13 @@ func (s *crSess) powerLoss(kv map[string]string, emit func(string, string), fail
 	never := map[int]bool{}     // identities never synced
 	deadVol := map[int]crFile{} // unlinked identities: their page-cache content
 	posP := s.positions()
+	synthP := s.synthImages()
 	empty := crFile{size: 0, blob: s.putBlob(nil)}
 	judged := map[string]bool{}
 	var renameFrom string
 	for i, e := range s.events {
 		g := e.Seq
-		img := s.snaps[i]
+		img := synthP[i]
 		// ---- update the durable / volatile bookkeeping with event e
 		switch e.Kind {
 		case badger.VevCreate:
@@ -1298,7 +1294,7 @@ func (s *crSess) powerLoss(kv map[string]string, emit func(string, string), fail
 				if e.Kind == badger.VevDelete {
 					deadVol[id] = empty // MmapFile.Delete: ftruncate(0), then unlink
 				} else if i > 0 {
-					deadVol[id] = s.snaps[i-1][e.file]
+					deadVol[id] = synthP[i-1][e.file]
 				}
 			}
 			delete(pw.vol, e.file)
@@ -1316,9 +1312,6 @@ func (s *crSess) powerLoss(kv map[string]string, emit func(string, string), fail
 			}
 		}
 		if e.tok == "" {
-			continue
-		}
-		if posP[i].racing >= 0 {
 			continue
 		}
 		wcP, fcP := posP[i].w, posP[i].f
@@ -1477,21 +1470,21 @@ func (s *crSess) powerLoss(kv map[string]string, emit func(string, string), fail
 				_, inVol := pw.vol[it.name]
 				if it.kind == "entry" && !inVol && v.out == "err:zero-length-log" {
 					// Delete = ftruncate(0) + unlink: the unlink is lost, the truncation is not
-					return "[F17:zero-length-log-file] "
+					return "[F22:zero-length-log-file] "
 				}
 				return ""
 			})
 		}
 		// everything else that is unsynced lost together / random subsets of it (the F4 items
 		// stay: their loss is judged above, one at a time, so that it is attributed correctly)
-		f17 := func(it item) bool {
+		f22 := func(it item) bool {
 			_, inVol := pw.vol[it.name]
 			d, inDur := pw.dur[it.name]
 			return it.kind == "entry" && !inVol && inDur && deadVol[d].size == 0 && pw.sync[d].size != 0
 		}
 		all := map[int]bool{}
 		for ix, it := range items {
-			if !f4(it) && !f17(it) {
+			if !f4(it) && !f22(it) {
 				all[ix] = true
 			}
 		}
@@ -1517,16 +1510,43 @@ func crTokOfName(n string) string {
 	return t
 }
 
-// positions: for every event, how many writer / flusher events of its step are reflected in
-// the snapshot taken at it. The snapshot is taken by the thread that logged the event while
-// the other thread keeps running; its next operation may already have landed in the page
-// cache although its event is logged only after the snapshot (it blocks on the event mutex,
-// so it is never more than one operation ahead). Whether it has landed is decided from the
-// snapshots alone: the file it touches looks the same as in the snapshot taken at its event.
+// positions: for every event, the number of writer / flusher events of its step up to and
+// including it (in the order of the event log).
 type crPos struct {
 	w, f   int
 	actor  byte
-	racing int // >= 0: index of the other thread's create/delete event that is half done
+	racing int // unused (kept -1)
+}
+
+// synthImages: for every event the directory image made of race-free pieces. The snapshot at
+// an event is taken by the thread that performed the operation, right after it, so the file
+// that operation touched is exact in it; files the *other* thread is working on may be one
+// operation ahead of the event log (it blocks on the event mutex only when it logs). Taking,
+// for every file, its content from the snapshot of the last event that touched it gives
+// exactly "the first i events have happened, nothing else" — the state the model computes.
+func (s *crSess) synthImages() []crImage {
+	out := make([]crImage, len(s.events))
+	cur := s.initial.clone()
+	renameFrom := ""
+	for i, e := range s.events {
+		if e.file != "" && !crIgnoredFile(e.file) {
+			switch e.Kind {
+			case badger.VevRenameFrom:
+				renameFrom = e.file
+			case badger.VevRename:
+				delete(cur, renameFrom)
+				fallthrough
+			default:
+				if f, ok := s.snaps[i][e.file]; ok {
+					cur[e.file] = f
+				} else {
+					delete(cur, e.file)
+				}
+			}
+		}
+		out[i] = cur.clone()
+	}
+	return out
 }
 
 func (s *crSess) positions() []crPos {
@@ -1554,36 +1574,6 @@ func (s *crSess) positions() []crPos {
 			wc++
 		}
 		out[i] = crPos{wc, fc, a, -1}
-		// the other thread's next event in this step
-		for j := i + 1; j < len(s.events) && s.events[j].step == e.step; j++ {
-			o := s.events[j]
-			if o.tok == "" || eff(o) == a {
-				continue
-			}
-			if o.file == "" {
-				break
-			}
-			switch o.Kind {
-			case badger.VevCreate, badger.VevWrite, badger.VevDelete, badger.VevTruncate, badger.VevRemove, badger.VevRename, badger.VevClose:
-			default:
-				j = len(s.events)
-				continue
-			}
-			fi, oki := s.snaps[i][o.file]
-			fj, okj := s.snaps[j][o.file]
-			numbered := strings.HasSuffix(o.file, ".mem") || strings.HasSuffix(o.file, ".vlog") || strings.HasSuffix(o.file, ".sst")
-			switch {
-			case oki == okj && fi == fj:
-				if eff(o) == 'F' {
-					out[i].f++
-				} else {
-					out[i].w++
-				}
-			case oki && fi.size == 0 && numbered && (o.Kind == badger.VevCreate || o.Kind == badger.VevDelete):
-				out[i].racing = j
-			}
-			break
-		}
 	}
 	return out
 }
@@ -1686,7 +1676,7 @@ func (s *crSess) realKills(n int, emit func(string, string), fail func(string)) 
 			v := s.judgeDir(dir, "real kill", acked, issued, !hasCompact, "C08")
 			for _, f := range v.fails {
 				if strings.Contains(f, "-open]") && v.out == "err:zero-length-log" {
-					f = "[F17:zero-length-log-file] " + f
+					f = "[F22:zero-length-log-file] " + f
 				}
 				fail(fmt.Sprintf("real SIGKILL (event %d, delay %v): %s", killat, delay, f))
 			}
